@@ -40,6 +40,19 @@ TOL = 1e-10                     # class R: |delta| <= TOL * max|entry|
 EXTS = [".dat", ".txt", ".npy", ".npz", ".mat"]
 
 
+def _mkdtemp(prefix):
+    """Fresh private directory for everything one case writes; removed by the caller.  A
+    memory backed file system is preferred when there is one (the cases are I/O bound: tens
+    of thousands of create/write/remove cycles), else the default temporary directory."""
+    for base in ("/dev/shm", None):
+        if base is None or (os.path.isdir(base) and os.access(base, os.W_OK | os.X_OK)):
+            try:
+                return tempfile.mkdtemp(prefix=prefix, dir=base)
+            except OSError:
+                continue
+    raise isolation.HarnessError("no writable temporary directory")
+
+
 # ==========================================================================
 # G: format matrix
 # ==========================================================================
@@ -183,13 +196,26 @@ def _digest(x):
             float("%.6e" % sc)]
 
 
+def _entrywise(got, ref):
+    """all |got-ref| <= TOL*|ref| entry by entry; returns (ok, worst relative deviation)."""
+    got = numpy.asarray(got)
+    if not (numpy.all(numpy.isfinite(got)) and numpy.all(numpy.isfinite(ref))):
+        return False, float("inf")
+    d = numpy.abs(got - ref)
+    a = numpy.abs(ref)
+    ok = bool(numpy.all(d <= TOL * a))
+    rel = d / numpy.where(a > 0, a, 1.0)
+    rel = numpy.where((a == 0) & (d > 0), numpy.inf, rel)
+    return ok, float(numpy.max(rel)) if rel.size else 0.0
+
+
 def eval_g(case):
     viol = []
     unsupported = _g_supported(case)
     cell = "%s/%s/%s/%s" % (case["ext"], "with-axis" if case["axis"] else "no-axis",
                             "%dD" % len(case["shape"]),
                             "real" if case["dtype"].startswith("real") else "complex")
-    tmp = tempfile.mkdtemp(prefix="c18g_")
+    tmp = _mkdtemp("c18g_")
     try:
         try:
             data, back, ax_out, ax_back = _g_roundtrip(case, tmp)
@@ -221,11 +247,14 @@ def eval_g(case):
                      % (case["cls"], data.shape, back.shape),
                      {"exported": list(data.shape), "loaded": list(back.shape)}))
     else:
-        ok, err = approx(back, data, TOL)
+        # class R applied PER ENTRY: every format of the matrix is lossless (text is written
+        # with 18 digits), and the wide-range flavour would hide its small entries behind
+        # max|entry| otherwise
+        ok, err = _entrywise(back, data)
         if not ok:
             viol.append(("export/values-differ/%s" % cell,
-                         "%s: loaded values differ from exported ones by %g"
-                         % (case["cls"], err), {"err": err}))
+                         "%s: loaded values differ from exported ones (worst relative "
+                         "deviation of an entry %g)" % (case["cls"], err), {"err": err}))
     aerr = 0.0
     if ax_out is not None:
         ax_back = numpy.asarray(ax_back)
@@ -238,11 +267,10 @@ def eval_g(case):
                 viol.append(("export/axis-differs/%s" % cell,
                              "%s: loaded axis values differ from exported ones by %g"
                              % (case["cls"], aerr), {"err": aerr}))
-    sc = max(float(numpy.max(numpy.abs(data))), 1e-300)
     return {"nontrivial": True,
             "outcome": ["ok" if not viol else "bad", case["cls"], cell, _digest(back)],
             "violations": viol,
-            "info": {"dev": {"export-values": (err / sc) if numpy.isfinite(err) else -1.0,
+            "info": {"dev": {"export-values-per-entry": err if numpy.isfinite(err) else -1.0,
                              "export-axis": aerr}}}
 
 
@@ -284,6 +312,7 @@ CLASSES = ["TimeAxis", "FrequencyAxis", "DFunction", "Operator", "Hamiltonian",
            "Aggregate", "CorrelationFunction", "SpectralDensity", "AbsSpectrum",
            "AbsSpectrumContainer", "TwoDResponse", "TwoDResponseContainer"]
 OWN_S = ("Hamiltonian", "Molecule", "MoleculeMode", "Aggregate")   # "B:S" is the object's own H
+HOLDERS = ("Molecule", "MoleculeMode", "Aggregate")   # keep basis managed parts (H, dipoles)
 ROUTES = ["save-load", "fileobj", "parcel", "dir", "scopy"]
 ATOMIC = ("scopy",)
 
@@ -682,11 +711,21 @@ def _twin_world(case):
     return _TWIN[key]
 
 
+def _tail(cls, ds, name):
+    """Last part of a violation key.  Inside the basis-context family (object represented in a
+    context basis when saved) the class and the observable add nothing - it is always the basis
+    managed array - and only the kind of object is kept: the object itself is basis managed, or
+    it holds basis managed parts.  Elsewhere class and observable are part of the signature."""
+    if ds > 0:
+        return "holder-of-basis-managed-parts" if cls in HOLDERS else "basis-managed-object"
+    return cls if name is None else "%s/%s" % (cls, name)
+
+
 def eval_h(case):
     sig, ds, dr = _basis_signature(case)
     cls = case["cls"]
     viol = []
-    tmp = tempfile.mkdtemp(prefix="c18h_")
+    tmp = _mkdtemp("c18h_")
     try:
         st0, exp, _ = _twin_world(case)
         if st0 != "ok":
@@ -694,7 +733,13 @@ def eval_h(case):
             # statement about saving (C04/C05 own context transparency); counted, excluded
             return {"nontrivial": False, "outcome": ["twin-world-fails", cls, str(exp)[:80]],
                     "violations": [], "info": {"twin_fail": "%s %r" % (cls, exp)}}
-        st1, got, _ = _run_world(case, True, tmp)
+        # temporary files the library makes itself (scopy) also go below the private directory
+        saved_tempdir = tempfile.tempdir
+        tempfile.tempdir = tmp
+        try:
+            st1, got, _ = _run_world(case, True, tmp)
+        finally:
+            tempfile.tempdir = saved_tempdir
     finally:
         shutil.rmtree(tmp, ignore_errors=True)
     hist = "%s via %s: pre=%s touch=%d | save | mid=%s | load | read=%s" % (
@@ -702,7 +747,7 @@ def eval_h(case):
     nontrivial = bool(case["pre"] or case["mid"] or case["rd"] not in ("here", "root"))
     worst = 0.0
     if st1 == "dir-tags":
-        viol.append(("parcel/dir-tags-differ/%s" % cls, hist + ": " + got, None))
+        viol.append(("parcel/dir-tags-differ", hist + ": " + got, None))
         return {"nontrivial": nontrivial, "outcome": ["dir-tags", cls], "violations": viol}
     if st1 == "raises":
         stage, tname, msg, where = got
@@ -710,7 +755,7 @@ def eval_h(case):
             sym = "%s-raises:basis-not-on-stack" % stage
         else:
             sym = "%s-raises:%s" % (stage, tname)
-        viol.append(("parcel/%s/%s/%s" % (sym, sig, cls),
+        viol.append(("parcel/%s/%s/%s" % (sym, sig, _tail(cls, ds, None)),
                      "%s -> %s raised %s: %s [%s] (basis depth at save %d, at read %d)"
                      % (hist, stage, tname, msg, where, ds, dr),
                      {"stage": stage, "where": where, "saved_basis_depth": ds,
@@ -735,10 +780,7 @@ def eval_h(case):
             dig.append(_digest(g))
         if not same:
             key = "type-differs" if name == "type" else "values-differ"
-            # inside the basis-context family the observable adds nothing (it is always the
-            # basis managed array); elsewhere it is part of the signature
-            tail = cls if ds > 0 else "%s/%s" % (cls, name)
-            viol.append(("parcel/%s/%s/%s" % (key, sig, tail),
+            viol.append(("parcel/%s/%s/%s" % (key, sig, _tail(cls, ds, name)),
                          "%s: %s of the loaded object differs from the never-saved twin "
                          "(max abs deviation %s; basis depth at save %d, at read %d)"
                          % (hist, name, err, ds, dr),
